@@ -89,7 +89,7 @@ func holdC01(w *mon.W, got, ref []byte, desc string) {
 
 func runC01(w *mon.W) {
 	codec := p9p.NewCodec()
-	total := w.Scale(16000, 700000)
+	total := w.Scale(16000, 4000000)
 	g := gen.New(w.Rng)
 	gs := gen.Small(w.Rng)
 	for i := 0; i < total; i++ {
@@ -106,7 +106,7 @@ func runC01(w *mon.W) {
 		checkFcallC01(w, codec, fc)
 	}
 	// Dir records on their own
-	nd := w.Scale(2500, 60000)
+	nd := w.Scale(2500, 400000)
 	for i := 0; i < nd; i++ {
 		if !w.Mine(i) {
 			continue
@@ -119,7 +119,7 @@ func runC01(w *mon.W) {
 		checkDirC01(w, codec, d)
 	}
 	// bare values
-	nb := w.Scale(2000, 40000)
+	nb := w.Scale(2000, 300000)
 	for i := 0; i < nb; i++ {
 		if !w.Mine(i) {
 			continue
